@@ -118,9 +118,40 @@ pub struct Ctx {
     pub only_part: Option<String>,
     findings: Vec<Finding>,
     st: Stats,
+    /// worker mode: where the measurements go (also written periodically, so that a run that
+    /// is cut short by the watchdog still reports what it did)
+    out: Option<PathBuf>,
+    last_dump: Option<Instant>,
 }
 
 impl Ctx {
+    fn dump(&mut self) {
+        let Some(out) = self.out.clone() else { return };
+        let tmp = out.with_extension("tmp");
+        if std::fs::write(&tmp, serde_json::to_vec(&self.to_worker_json()).unwrap()).is_ok() {
+            let _ = std::fs::rename(&tmp, &out);
+        }
+        let mut hb = Vec::with_capacity(self.st.nontrivial.len() * 8);
+        for h in &self.st.nontrivial {
+            hb.extend_from_slice(&h.to_le_bytes());
+        }
+        let tmp = out.with_extension("hashes.tmp");
+        if std::fs::write(&tmp, hb).is_ok() {
+            let _ = std::fs::rename(&tmp, out.with_extension("hashes"));
+        }
+        self.last_dump = Some(Instant::now());
+    }
+
+    fn maybe_dump(&mut self) {
+        if self.out.is_none() || self.st.nontrivial.len() > 400_000 {
+            return;
+        }
+        match self.last_dump {
+            Some(t) if t.elapsed() < Duration::from_secs(30) => {}
+            _ => self.dump(),
+        }
+    }
+
     /// Pins this worker process (all its threads) to one CPU. The controlled scheduler runs
     /// one thread at a time; on one CPU a baton hand-over is a plain context switch instead of
     /// a cross-CPU wake-up (which is very expensive inside a VM).
@@ -223,6 +254,9 @@ impl Ctx {
     /// records one executed case
     pub fn record(&mut self, part: &str, key: u64, obs: &Obs, sample: impl FnOnce() -> Value) {
         self.st.evaluations += 1;
+        if self.st.evaluations % 64 == 0 {
+            self.maybe_dump();
+        }
         let e = self.st.parts.entry(part.to_string()).or_default();
         e.0 += 1;
         if obs.discarded {
@@ -642,6 +676,8 @@ fn new_ctx(spec: &Spec, a: &Args, worker: usize, nworkers: usize) -> Ctx {
         only_part: a.part.clone(),
         findings: load_findings(),
         st: Stats::default(),
+        out: None,
+        last_dump: None,
     }
 }
 
@@ -686,6 +722,8 @@ pub fn main(spec: Spec, body: fn(&mut Ctx)) -> ! {
     // ---- worker mode -------------------------------------------------------------------
     if let Some((w, n)) = a.worker {
         let mut ctx = new_ctx(&spec, &a, w, n);
+        ctx.out = a.out.clone();
+        ctx.last_dump = Some(Instant::now());
         if w == 0 && !a.no_regressions && a.part.is_none() {
             for f in regression_files(spec.prop) {
                 if let Ok(txt) = std::fs::read_to_string(&f) {
@@ -703,13 +741,8 @@ pub fn main(spec: Spec, body: fn(&mut Ctx)) -> ! {
             ctx.replay = None;
         }
         body(&mut ctx);
-        let out = a.out.clone().expect("--out");
-        std::fs::write(&out, serde_json::to_vec(&ctx.to_worker_json()).unwrap()).unwrap();
-        let mut hb = Vec::with_capacity(ctx.st.nontrivial.len() * 8);
-        for h in &ctx.st.nontrivial {
-            hb.extend_from_slice(&h.to_le_bytes());
-        }
-        std::fs::write(out.with_extension("hashes"), hb).unwrap();
+        assert!(a.out.is_some(), "--out");
+        ctx.dump();
         std::process::exit(0);
     }
     // ---- parent ------------------------------------------------------------------------
